@@ -186,6 +186,8 @@ def prop(spec, rec):
         base_ev = sorted(sc.event_key(x) for x in base.sim.event_history)
         require(shifted_ev == base_ev, "shifted_event_history", lambda: "event history is not the base history shifted by %d: %r vs %r" % (k, shifted_ev, base_ev))
         labels.add("shifted")
+        if k >= 100000:
+            labels.add("shifted_by_more_than_100000_periods")
 
     n = len(m.station_ids)
     nonid = sum([perm["stations"] != list(range(n)), perm["constraints"] != list(range(len(spec["constraints"]))) and len(spec["constraints"]) > 1, perm["events"] != list(range(len(perm["events"]))) and len(perm["events"]) > 1])
@@ -313,8 +315,28 @@ def cases(draw):
         "zs": [0.0],
         "store_history": False,
         "perm": {"stations": list(draw(st.permutations(range(n)))), "constraints": list(draw(st.permutations(range(len(cons))))), "events": list(draw(st.permutations(range(nev))))},
+        # k >= 0 without an upper end: now and then a shift beyond 100 000 periods (a year of 5-minute
+        # steps), on schedulers that are only asked when something happens (the 100 000 idle periods
+        # are simulated one by one)
         "shift": draw(st.integers(0, 8)),
     }
+
+
+@st.composite
+def far_cases(draw):
+    """k >= 0 has no upper end: a small scenario under a scheduler that is only asked when something
+    happens (max_recompute None), shifted by more than 100 000 periods - a year of 5-minute steps.
+    The idle periods in front are simulated one by one, hence a sub-check of its own with a fixed,
+    small number of cases."""
+    for _ in range(20):
+        spec = draw(cases())
+        if spec["scheduler"]["kind"] == "scripted":
+            break
+    spec["scheduler"]["max_recompute"] = None
+    spec["scheduler"].pop("probe", None)
+    spec["shift"] = draw(st.sampled_from([100003, 131077, 250001]))
+    spec["peek_before_run"] = False
+    return spec
 
 
 def subchecks(tier):
@@ -326,7 +348,8 @@ def subchecks(tier):
             quick=600,
             thorough=30000,
             floors={"two_axes_permuted": 0.3, "binding_constraint": 0.1, "shifted": 0.2, "sched_greedy": 0.089, "sched_rr": 0.092, "two_sessions_past_their_estimate": 0.1, "playback_scheduler": 0.005, "sorted_scheduler_with_estimator": 0.06},
-        )
+        ),
+        Given("far_shift", far_cases(), prop, quick=6, thorough=160, floors={"shifted_by_more_than_100000_periods": 0.5}, jobs_quick=3),
     ]
 
 
